@@ -293,6 +293,23 @@ def build_schema():
         finally:
             w.leave(d_)
 
+    def boom_sync(src, info):
+        # a *synchronous* resolver: a failure here is raised while sibling fields may already have returned
+        # awaitables, which the executor then settles in the background
+        if _spec(src, "boom"):
+            raise RuntimeError("resolver failed synchronously")
+        return "calm"
+
+    async def akid(src, info):
+        w = info.context
+        d_ = w.enter(info)
+        try:
+            for _ in range(_spec(src, "ad", 1) or 0):
+                await asyncio.sleep(0)
+            return _spec(src, "kid")
+        finally:
+            w.leave(d_)
+
     def tracked(src, info):
         w = info.context
         n = _spec(src, "track")
@@ -326,6 +343,8 @@ def build_schema():
             "hang": GraphQLField(GraphQLString, resolve=hang),
             "boom": GraphQLField(GraphQLString, resolve=boom),
             "boomNN": GraphQLField(GraphQLNonNull(GraphQLString), resolve=boom),
+            "boomSyncNN": GraphQLField(GraphQLNonNull(GraphQLString), resolve=boom_sync),
+            "akid": GraphQLField(item, resolve=akid),
             "tracked": GraphQLField(GraphQLString, resolve=tracked),
             "kid": GraphQLField(item),
             "kids": GraphQLField(GraphQLList(item), resolve=kids),
@@ -521,6 +540,59 @@ def gen_request(rng, family):
         data = {"item": gen_item(rng, 0, hang_ok, fail_ok), "other": gen_item(rng, 1, hang_ok, fail_ok)}
         data["kids"] = gen_item(rng, 0, hang_ok, fail_ok).get("kids", [])
         req["data"] = data
+    return req
+
+
+def gen_special(rng, kind, family):
+    """Two shapes that need cooperating parts to show a stop-time leak (no consumer stop involved: the stop is a
+    resolver failure).
+    'nested-background': a synchronous non-null failure next to an awaitable sibling hands the sibling to the
+      executor's background settling; when that sibling resolves, the same happens again one level down, so work is
+      registered from inside work that is already being settled (the hook must still wait for all of it).
+    'shared-failure': two overlapping deferred fragments share a failing non-null field; each has its own slow field
+      and its own started @stream source.  All delivery groups fail, the payload stream ends regularly - and the slow
+      siblings and the started sources must still be settled / closed."""
+    req = {"family": family, "early": rng.random() < 0.5, "special": kind}
+
+    def src(n=2):
+        return {"$src": {"items": [{"id": i, "name": "x", "d": rng.randint(0, 2)} for i in range(n)], "kind": rng.choice(["agen", "cls"]),
+                         "delay": rng.randint(0, 3), **({"cleanup": rng.randint(1, 4)} if rng.random() < 0.5 else {})}}
+
+    if kind == "nested-background":
+        depth = rng.choice([2, 2, 3])
+        node = {"id": depth, "d": rng.randint(3, 9), "boom": True, "name": "deep", "kids": src()}
+        sel = "{ slow1: name b2: boomSyncNN" + rng.choice(["", " kids3: kids { id4: id }"]) + " }"
+        a = 10
+        for lvl in range(depth - 1, 0, -1):
+            node = {"id": lvl, "d": rng.randint(0, 3), "ad": rng.randint(1, 4), "boom": True, "kid": node, "name": "n"}
+            sel = "{ k%d: akid %s %s b%d: boomSyncNN }" % (a, sel, rng.choice(["", "n%d: name" % (a + 1)]), a + 2)
+            a += 10
+        top = {"id": 0, "d": 0, "ad": rng.randint(1, 3), "kid": node, "boom": rng.random() < 0.8}
+        sel = "{ k%d: akid %s b%d: boomSyncNN }" % (a, sel, a + 2)
+        if family == "subscription":
+            req["doc"] = "subscription { ev " + sel + " }"
+            req["sub"] = {"items": [top, dict(top, id=9)], "kind": "agen", "delay": 0}
+            req["data"] = None
+        elif family == "incremental":
+            req["doc"] = "{ item { id1: id ... @defer " + sel + " } }"
+            req["data"] = {"item": top}
+        else:
+            req["doc"] = "{ item " + sel + " }"
+            req["data"] = {"item": top}
+        return req
+    # shared-failure (incremental only)
+    req["family"] = "incremental"
+    n = rng.choice([2, 2, 3])
+    spreads = []
+    for i in range(n):
+        lbl = "ABC"[i]
+        body = "sh: boomNN slow%s: kid { n%s: name }" % (lbl, lbl)
+        if rng.random() < 0.8:
+            body += " l%s: kids @stream(initialCount: %d) { id%s: id }" % (lbl, rng.choice([0, 1, 1]), lbl)
+        # inline fragments: the harness computes a field's enclosing construct from the selection-set nesting
+        spreads.append('... @defer(label: "%s") { %s }' % (lbl, body))
+    req["doc"] = "{ item { id0: id " + " ".join(spreads) + " } }"
+    req["data"] = {"item": {"id": 1, "d": rng.randint(0, 2), "boom": rng.random() < 0.85, "kid": {"id": 2, "d": rng.randint(4, 10), "name": "slow"}, "kids": src(3)}}
     return req
 
 
